@@ -194,5 +194,6 @@ def check(ctx):
     c17.check_B8(ctx, facts, rule='C07.R4')
     c17.check_B12(ctx, facts, rule='C07.R6')      # what iter_metadata lists does not rest on a numeric iteration order of little-endian keys
     c17.check_B7(ctx, facts)        # the keyspace list a restart rebuilds from is the persistent registry, which only grows
+    c17.check_B9(ctx, facts)        # what the restart replays is every stored row: no read statement provably excludes rows (ids >= 2^63 are negative rows) — round 8, C07i
     for o in ctx.obs[n0:]:
         o.rule = 'C07.R4'
